@@ -945,3 +945,69 @@ pub fn pin_family(out: &mut dyn Write, rng: &mut Rng, stride: u64) {
     }
     dist.print(out);
 }
+
+
+/// C07: full-width walks (every legal move, every reply, ...) calling the whole safe surface at each node.
+/// A violated unchecked precondition aborts the process in the checked build, which the driver sees.
+fn walk_node(b: &Board, depth: u32, nodes: &mut u64) {
+    *nodes += 1;
+    let l = sorted_moves(b);
+    let _ = (b.state(), b.in_check(), b.zobrist(), b.to_string(), b.legals().len(), b.king_sq(Color::White), b.king_sq(Color::Black));
+    if depth == 0 {
+        return;
+    }
+    for m in l {
+        if let Some(nb) = b.move_new(m) {
+            walk_node(&nb, depth - 1, nodes);
+        }
+    }
+}
+
+pub fn walks(out: &mut dyn Write, rng: &mut Rng, stride: u64) {
+    let mut roots: Vec<Board> = CORPUS.iter().filter_map(|s| s.parse::<Board>().ok()).filter(|b| b.raw().all().count() <= 12).collect();
+    // en-passant roots with an extra knight / pawn / slider that may be giving check (accepted but possibly unreachable positions)
+    let stride = stride.max(1);
+    let off = rng.below(stride);
+    let mut idx = 0u64;
+    for turn in 0..2usize {
+        let me = if turn == 0 { Color::White } else { Color::Black };
+        let prank = if turn == 0 { 4u8 } else { 3 };
+        for f in 0..8u8 {
+            for g in [f.wrapping_sub(1), f + 1] {
+                if g > 7 {
+                    continue;
+                }
+                for k in 0..64u8 {
+                    for x in 0..64u8 {
+                        for kind in [Piece::Knight, Piece::Pawn, Piece::Rook, Piece::Bishop] {
+                            idx += 1;
+                            if idx % stride != off {
+                                continue;
+                            }
+                            let mut bd = Board::builder();
+                            bd.turn(me);
+                            if bd.place(p(k), me, Piece::King).is_err() { continue; }
+                            if bd.place(p(prank * 8 + f), !me, Piece::Pawn).is_err() { continue; }
+                            if bd.place(p(prank * 8 + g), me, Piece::Pawn).is_err() { continue; }
+                            if kind == Piece::Pawn && (x < 8 || x >= 56) { continue; }
+                            if bd.place(p(x), !me, kind).is_err() { continue; }
+                            let ek = if turn == 0 { 63 - (k % 2) } else { k % 2 };
+                            if bd.place(p(ek), !me, Piece::King).is_err() { continue; }
+                            bd.enpassant(File::from_u8(f));
+                            if let Ok(b) = bd.build() {
+                                roots.push(b);
+                            }
+                        }
+                    }
+                }
+            }
+        }
+    }
+    let mut nodes = 0u64;
+    for b in &roots {
+        let before = nodes;
+        walk_node(b, 3, &mut nodes);
+        writeln!(out, "WK\t{}\t{}", xfen(b), nodes - before).unwrap();
+    }
+    writeln!(out, "DIST\twalk_roots={}\twalk_nodes={nodes}", roots.len()).unwrap();
+}
